@@ -293,6 +293,28 @@ def run(report, index, tier):
                                 '/'.join(comment_defs_break), kw, kw, kw),
             where='unparsers/es5.py:%s / LineComment / BlockComment'
             % defname)
+    # R13.5 ---------------------------------------------------------------
+    r5 = report.rule('R13.5', 'comments are printed verbatim', floor=3)
+    core = index.need('calmjs.parse.handlers.core')
+    from engine.layout import Tables
+    T = Tables(index)
+    dh = T.table('indent', indent_str='  ').get('deferrable_handlers', {})
+    names = sorted(k.name for k in dh)
+    r5.check(names == ['BlockComment', 'LineComment'],
+             'pretty table prints both comment kinds',
+             'rules.indent: deferrable_handlers', 'deferrable handlers of '
+             'the indent table are %s' % names, where='rules.py:indent')
+    for k, h in sorted(dh.items(), key=lambda kv: kv[0].name):
+        for text in ('// trailing blanks  \t', '/* a\n * b */',
+                     '//\u00a0x\u00a0', '/**/'):
+            ev = Evaluator(h.module, None, {}, {})
+            ret, _ = ev.call(h.fdef, [Obj('Dispatcher'),
+                                      Obj(k.name, value=text)])
+            r5.check(ret == text, '%s prints %r' % (k.name, text),
+                     '%s handler on %r' % (k.name, text),
+                     'the comment %r is printed as %r: the re-parsed tree '
+                     'carries a different comment' % (text, ret),
+                     where='handlers/core.py:%s' % h.name)
     report.not_decided.append(
         'that the re-parse attaches the same comments to the same nodes '
         '(depends on which token carries them after re-layout)')
